@@ -46,6 +46,13 @@ func relTargets(l, c int, wide bool) []int {
 	return t
 }
 
+func relSetName(wide bool) string {
+	if wide {
+		return "Realloc(T), Append/AppendString(T-l) for T in {c+1, 2l-1, 2l, 2l+1, 2c-1, 2c, 2c+1, 3c+1, l+1, c, 2c-l, 2c-l+1, 4c, 4l+1}, T > l"
+	}
+	return "Realloc(T), Append(T-l) for T in {c+1, 2l-1, 2l, 2l+1, 2c-1, 2c, 2c+1, 3c+1}, T > l; AppendString(T-l) for T in {c+1, 2c+1}"
+}
+
 // extOps returns the operations the extended alphabet adds for live handle h (length l,
 // capacity c); relLeft=false: only the caller reslices.
 func extOps(c *acfg, h, l, cp int, relLeft bool) []op {
